@@ -53,6 +53,9 @@ def _law(rep, rule, run: Run, facet, decl, want, law_text, show):
             else:
                 rep.refuted(rule, fi, node, f"returned distance does not obey {law_text}: {f2.reason}"
                                             f" [{sym.show(f2.culprit)[:200] if f2.culprit is not None else ''}]")
+        elif f == facets.POLY:
+            rep.discharged(rule, fi, ev["node"], f"this path returns a 0/inf literal, which obeys {law_text} trivially",
+                           nontrivial=False)
         elif not want(f):
             rep.refuted(rule, fi, ev["node"], f"returned distance has {show(f)} instead of the value required by "
                                               f"{law_text}")
@@ -61,6 +64,28 @@ def _law(rep, rule, run: Run, facet, decl, want, law_text, show):
                                                  f"({run.kind} configuration): {show(f)}",
                            derived=sym.show(e)[:300])
     return ncmp
+
+
+def check_shortcuts(rep, project, qual):
+    """MI-ID: a short-cut that declares two diagrams equal must compare them as multisets of points; sorting the
+    birth and the death column independently forgets which birth belongs to which death"""
+    run = Run(project, qual)
+    fi = run.fi
+    for ev in run.events("sort-columns"):
+        if ev["fi"] is fi:
+            rep.refuted("MI-ID", fi, ev["node"],
+                        "a diagram's birth and death columns are sorted independently (np.sort(..., axis=0)) and the result "
+                        "decides the distance: two different diagrams with the same births and the same deaths, paired "
+                        "differently, are treated as equal (d = 0 for [[0,2],[1,3]] vs [[0,3],[1,2]]; triangle inequality fails)")
+    consts = [(ev, e) for ev, e in run.distance_values() if e is not None and e[0] == "num"]
+    for ev, e in consts:
+        conds = ev["path"]
+        if any(x[0] == "opq" and x[1].startswith("unmodelled") for c in conds for x in sym.walk(c)):
+            rep.unmodelled("MI-ID", fi, ev["node"], f"a constant distance {sym.show(e)} is returned under a condition that is "
+                                                    f"not modelled")
+        else:
+            rep.discharged("MI-ID", fi, ev["node"], f"constant {sym.show(e)} returned under {[sym.show(c)[:80] for c in conds]}",
+                           nontrivial=False)
 
 
 def check_deg(rep, project, qual, kinds=("finite", "dropped")):
@@ -159,6 +184,7 @@ def run(project: Project, rep, tier: str):
         check_deg(rep, project, qual, kinds)
         check_shift(rep, project, qual, kinds)
         check_swap(rep, project, qual)
+        check_shortcuts(rep, project, qual)
     rep.floor("MI-DEG", 6)
     rep.floor("MI-SHIFT", 6)
     rep.floor("MI-SWAP", 6)
